@@ -5,4 +5,4 @@ if [ ! -x "$VGO" ]; then
   if command -v go1.26.8 >/dev/null 2>&1; then VGO=$(command -v go1.26.8); else VGO=$(command -v go); export GOTOOLCHAIN=auto; fi
 fi
 export VGO
-export VERIF_ROOT=/verif
+export VERIF_ROOT=${VERIF_ROOT:-/verif}
